@@ -96,8 +96,6 @@ In(e, b) == [e EXCEPT !.body = b]
 Witnesses ==
   { [tag |-> "attrListKeyedByQName",
      ss  |-> WithBody(NoCtx, <<In(Lre("", <<>>, <<>>, <<>>, <<>>), <<Att("p", TRUE, V, "1"), Att("q", TRUE, V, "2")>>)>>)],
-    [tag |-> "shadowedPrefixReused",
-     ss  |-> WithBody(NoCtx, <<In(Lre("", <<<<"p", U>>>>, <<>>, <<>>, <<>>), <<In(Elt("p", TRUE, W), <<Att("p", TRUE, U, "1")>>)>>)>>)],
     [tag |-> "xmlnsPrefixOnElement", ss |-> WithBody(NoCtx, <<Elt("xmlns", TRUE, U)>>)],
     [tag |-> "attrDeclarationSkipped",
      ss  |-> WithBody([NoCtx EXCEPT !.nsd = <<<<"p", U>>>>], <<In(Elt("q", TRUE, U), <<Att("p", FALSE, "", "1")>>)>>)],
